@@ -158,6 +158,12 @@ def inline_helpers(prog, f, depth=2):
 
 
 def _variant_assigned(blk, k0):
+    t = blk["t"]
+    if t["k"] == "call" and t.get("dest") == [k0]:
+        c = callee_of(t)
+        if c and c.get("name") == "from_residual":
+            return "Err"        # `?` inside the helper: the residual (Err / None) is returned
+        return None
     for st in reversed(blk["s"]):
         if st["k"] == "assign" and st["p"] == [k0] and st["rv"][0] == "agg":
             return st["rv"][1].get("variant")
@@ -166,8 +172,8 @@ def _variant_assigned(blk, k0):
     return None
 
 
-def _retarget(t, old, new):
-    if t.get("t") == old and t["k"] in ("goto", "call", "assert", "drop"):
+def _retarget(t, old, new, force=False):
+    if (force or t.get("t") == old) and t["k"] in ("goto", "call", "assert", "drop"):
         t["t"] = new
         return True
     return False
@@ -225,19 +231,57 @@ def _propagate_variants(mir, ret_sites):
             if i1 is not None:
                 blocks[rb]["t"]["t"] = i1
             continue
-        # shared return block: split per predecessor
+        # shared return block: split per assigning block, following the straight-line chain
+        # (storage / drop-flag bookkeeping) between the assignment and the return block
         if any(st["k"] == "assign" and st["p"] and st["p"][0] == k0 for st in blocks[rb]["s"][:-1]):
             continue
-        preds = [bi for bi, b in enumerate(blocks) if bi != rb and b["t"].get("t") == rb and b["t"]["k"] in ("goto", "call", "assert", "drop")]
-        for pb in preds:
-            v = _variant_assigned(blocks[pb], k0)
-            if v not in ("Ok", "Err", "Some", "None"):
+
+        def succs(b):
+            t = b["t"]
+            out = []
+            if "t" in t and isinstance(t["t"], int):
+                out.append(t["t"])
+            if t["k"] == "switch":
+                out = [tg for _, tg in t.get("arms", [])] + ([t["else"]] if "else" in t else [])
+            return out
+        n0 = len(blocks)
+        for ab in range(n0):
+            v = _variant_assigned(blocks[ab], k0)
+            if v not in ("Ok", "Err", "Some", "None") or ab == rb:
                 continue
-            i1 = split_from(pb, v)
+            chain = []
+            nx = succs(blocks[ab])
+            if len(nx) != 1:
+                continue
+            b = nx[0]
+            ok = True
+            while b != rb:
+                if len(chain) > 8 or b >= n0:
+                    ok = False
+                    break
+                sb_ = succs(blocks[b])
+                if len(sb_) != 1 or any(st["k"] == "assign" and st["p"] and st["p"][0] == k0 for st in blocks[b]["s"]) or \
+                        (blocks[b]["t"]["k"] == "call" and blocks[b]["t"].get("dest") == [k0]):
+                    ok = False
+                    break
+                chain.append(b)
+                b = sb_[0]
+            if not ok:
+                continue
+            i1 = split_from(ab, v)
             if i1 is None:
                 continue
-            r2 = clone(blocks[rb])
-            ir2 = len(blocks)
-            r2["t"]["t"] = i1
-            blocks.append(r2)
-            _retarget(blocks[pb]["t"], rb, ir2)
+            # clone chain + return block, link them, end in the split continuation
+            prev_idx = None
+            first_idx = None
+            for cb_i in chain + [rb]:
+                cl = clone(blocks[cb_i])
+                idx = len(blocks)
+                blocks.append(cl)
+                if first_idx is None:
+                    first_idx = idx
+                if prev_idx is not None:
+                    _retarget(blocks[prev_idx]["t"], None, idx, force=True)
+                prev_idx = idx
+            _retarget(blocks[prev_idx]["t"], None, i1, force=True)
+            _retarget(blocks[ab]["t"], nx[0], first_idx)
